@@ -209,7 +209,35 @@ def handle (line : String) : String :=
         let sp := match parseGoWalk goRes with
           | some (gchain, gleaf) => Spec.walkSpec raw l gchain gleaf
           | none => "SPEC C01:no-result(" ++ goRes ++ ")"
-        let all := [d1, d2, sp].filter (· != "")
+        -- C08 through Detect: an RFC 8259 object/array document (whole, or cut after the opening bracket) is
+        -- reported in the JSON family unless a higher-priority signature accepted
+        let sp8 :=
+          let openIdx := raw.length - (Spec.J.skipWs raw).length
+          match Spec.J.firstNonWs raw with
+          | some c =>
+            if (c == 0x7B || c == 0x5B) && (l == 0 || l > openIdx) then
+              match Spec.J.doc true raw with
+              | some v =>
+                if Spec.J.depth v > 4096 then "" else
+                (match T with
+                 | .node _ cs =>
+                   let pre1 := cs.takeWhile (fun c => c.info.name != "text")
+                   match cs.dropWhile (fun c => c.info.name != "text") with
+                   | [] => ""
+                   | (.node _ tcs) :: _ =>
+                     if pre1.any (fun c => acc c.info) then "" else
+                     -- the sub-formats of text/plain that have priority over json (C08's anchor list, cf. C08.tree_facts)
+                     let pre2 := tcs.filter (fun c => ["html", "svg", "xml", "php", "js", "lua", "perl", "python"].contains c.info.name)
+                     match tcs.dropWhile (fun c => c.info.name != "json") with
+                     | [] => ""
+                     | jsonN :: _ =>
+                       if pre2.any (fun c => acc c.info) then "" else
+                       let leafName := (chain.head?.map (·.name)).getD ""
+                       if (jsonN.flatten.map (·.name)).contains leafName then "" else "SPEC C08:well-formed-document-not-reported-as-json")
+              | none => ""
+            else ""
+          | none => ""
+        let all := [d1, d2, sp, sp8].filter (· != "")
         if all.isEmpty then "OK" else String.intercalate " ; " all
       | _, _, _, _ => "BAD args"
     | ["jparse", q, hx] =>
